@@ -83,3 +83,6 @@ func TestOne(t *testing.T) {
 	}
 	fmt.Printf("ran %d in %s\n", n, time.Since(start))
 }
+
+func TestWorker(t *testing.T) { RunWorker(t) }
+func TestReplay(t *testing.T) { RunReplay(t) }
